@@ -33,6 +33,18 @@ func c12(tier string) int {
 	for _, comp := range [][]int{{32768}, {1, 32767}, {32767, 1}, {32769}, {0, 32768}, {32768, 0, 1}, {32767, 0, 2}} {
 		items = append(items, conc.Item{Name: "rw", Params: rw.Param(comp, 32*1024, 0), MaxBound: 99, Label: "rw"})
 	}
+	// large writes through the writer's re-used buffer (64 KiB boundaries; thorough: 1 MiB), read with a
+	// buffer of the same order so that the storing side takes few steps
+	large := [][]int{{65535, 65536}, {65536, 65536}, {65537, 1}, {1, 65536}}
+	lbuf := 128 * 1024
+	for _, comp := range large {
+		items = append(items, conc.Item{Name: "rw", Params: rw.Param(comp, lbuf, 0), MaxBound: 99, Label: "rw-large"})
+	}
+	if tier == "thorough" {
+		for _, comp := range [][]int{{1 << 20, 1 << 20}, {1<<20 + 1, 7}, {1, 65536, 65536}} {
+			items = append(items, conc.Item{Name: "rw", Params: rw.Param(comp, 1<<20, 0), MaxBound: 99, Label: "rw-large"})
+		}
+	}
 	for _, comp := range [][]int{{}, {1}, {1, 1}, {2, 0, 1}} {
 		for f := 1; f <= 3; f++ {
 			items = append(items, conc.Item{Name: "rw", Params: rw.Param(comp, 3, f), MaxBound: 99, Label: "rw-fail"})
